@@ -28,7 +28,7 @@ import z3
 
 from .common import *  # noqa
 from .vharness import *  # noqa
-from . import extsrc
+from . import extsrc, c18
 from mirsym.interp import explore, PathStats
 from mirsym.models import new_string, as_sstr
 from mirsym.asyncmodels import ReadyFut
@@ -201,14 +201,11 @@ def run_task(task):
             bwcs = []
             for bi, bs in enumerate(fblocks):
                 name = 'f%db%d' % (fi, bi)
-                lead = [I.fresh_byte('%s_l%d' % (name, i), WSB) for i in range(bs['lead'])]
-                core = [I.fresh_byte('%s_c%d' % (name, i), TEXT_ALPHA if 0 < i < bs['core'] - 1 else tuple(b'y"\\{')) for i in range(bs['core'])]
-                trail = [I.fresh_byte('%s_t%d' % (name, i), WSB) for i in range(bs['trail'])]
-                content = lead + core + trail
+                content, expected = c18.build_content(I, name, bs)
                 start = len(src) + 3
                 src += [35, 83, 10] + content + [10, 35, 69, 10]     # "#S\n" content "\n#E\n"
                 attrs_d = {'name': name.encode()}
-                info = dict(name=name, file=('f%d.py' % fi).encode(), ai=bs['ai'], line=line, expected_content=tuple(core))
+                info = dict(name=name, file=('f%d.py' % fi).encode(), ai=bs['ai'], line=line, expected_content=tuple(expected))
                 if bs['ai']:
                     cond = [tag] + [I.fresh_byte('%s_q%d' % (name, i), COND_ALPHA) for i in range(bs['cond_len'])]
                     # the condition is trimmed only for the emptiness test: keep its ends non-blank
@@ -224,13 +221,9 @@ def run_task(task):
                         replies[tag] = (rk,)
                         info['reply'] = (rk,)
                     tag += 1
-                    if bs.get('pattern') == 'group':
-                        attrs_d['check-ai-pattern'] = b'=(?P<value>[y"]+)'
-                        # content `k=VALUE;` : the value group
-                        info['pattern'] = 'group'
-                    elif bs.get('pattern') == 'plain':
-                        attrs_d['check-ai-pattern'] = b'[y"]+'
-                        info['pattern'] = 'plain'
+                    if bs.get('pattern'):
+                        attrs_d['check-ai-pattern'] = c18.PATTERNS[bs['pattern']]
+                        info['pattern'] = bs['pattern']
                 blk = mk_block(prog, I, attrs_d, (line, 3), (line, 20), (start, start + len(content)), (line, 30), (line + 2, 1))
                 bwcs.append(mk_bwc(prog, blk))
                 blocks.append(info)
@@ -491,10 +484,8 @@ def realise(w):
             if '"' in b['cond'] or '\n' in b['cond']:
                 return False
             pat = ''
-            if b.get('pattern') == 'group':
-                pat = " check-ai-pattern='=(?P<value>[y\"]+)'"
-            elif b.get('pattern') == 'plain':
-                pat = " check-ai-pattern='[y\"]+'"
+            if b.get('pattern'):
+                pat = " check-ai-pattern='%s'" % c18.PATTERNS[b['pattern']].decode()
             ent['tagline'] = '<!-- <block name="%s" check-ai="%s"%s> -->' % (nm, b['cond'], pat)
         else:
             ent['tagline'] = '<!-- <block name="%s"> -->' % nm
@@ -538,13 +529,13 @@ def check_real(binary, w):
             for b in w['blocks']:
                 want = 'CONDITION:\n%s\n\nBLOCK (formatting preserved):\n%s' % (b['cond'], b['content'])
                 users = [m.get('content') for r in obs['requests'] if r['body'] for m in r['body'].get('messages', []) if m.get('role') == 'user']
-                if b.get('pattern') is None and want.encode('latin1').decode('utf-8', 'replace') not in users and want not in users:
+                if want.encode('latin1').decode('utf-8', 'replace') not in users and want not in users:
                     ok = False
     return dict(ok=ok, observed=dict(code=obs['code'], diags=obs['diags'], stderr=obs['stderr'], nreq=len(obs['requests'])), expected=exp)
 
 
-def B(ai=True, pattern=None, lead=0, core=2, trail=0, cond_len=1, reply=('text', 2)):
-    return dict(ai=ai, pattern=pattern, lead=lead, core=core, trail=trail, cond_len=cond_len, reply=reply)
+def B(ai=True, pattern=None, lead=0, core=2, trail=0, cond_len=1, reply=('text', 2), pre=1):
+    return dict(ai=ai, pattern=pattern, lead=lead, core=core, trail=trail, cond_len=cond_len, reply=reply, pre=pre)
 
 
 def tasks_for(tier):
@@ -556,6 +547,14 @@ def tasks_for(tier):
     T.append(dict(files=[[B()]], key=False, model_env=False, url_env=False))
     T.append(dict(files=[[B()]], key=False, key_unset=False, model_env=False, url_env=False))
     T.append(dict(files=[[B(cond_len=2, core=3)]], key=True, model_env=True, url_env=True))
+    # content selection: pattern forms (value group, whole match, match reaching the edges, no match) and blank content
+    for pat in ('group', 'plain'):
+        for core in (0, 1, 2):
+            T.append(dict(files=[[B(pattern=pat, core=core, lead=1, trail=1, reply=('text', 2))]], key=True, model_env=False, url_env=False))
+    for lead, trail in ((1, 0), (0, 1), (2, 1)):
+        T.append(dict(files=[[B(pattern='edge', core=1, lead=lead, trail=trail, reply=('text', 2))]], key=True, model_env=False, url_env=False))
+    T.append(dict(files=[[B(core=0, lead=2, reply=('text', 2))]], key=True, model_env=False, url_env=False))
+    T.append(dict(files=[[B(core=0, lead=1, reply=('err', 0))]], key=True, model_env=False, url_env=False))
     # two and three blocks, one or two files, a non-AI block in between; faults on each position
     for rs in itertools.product([('text', 2), ('text', 3), ('err', 0), ('null', 0)], repeat=2):
         T.append(dict(files=[[B(reply=rs[0]), B(ai=False), B(reply=rs[1])]], key=True, model_env=False, url_env=False))
@@ -633,13 +632,13 @@ def main(tier):
             agg.validation_failures.append(msg)
             agg.engine_errors.append({'engine_error': 'translator validation: ' + msg})
     bounds = dict(tasks=len(tasks), blocks='1..3 check-ai blocks (4 thorough) over 1..2 files, optional plain block between',
-                  symbolic='condition 2-3 bytes over [x space " \\ LF] after a tag letter; content 2-3 bytes over [y space " \\ {] with 0-2 blanks (space, tab, LF) around; reply text 1-4 bytes over [OoKk.x space]; model 2 bytes; URL suffix 1 byte; key 2 bytes',
+                  symbolic='condition 2-3 bytes over [x space " \\ LF] after a tag letter; content 0-3 bytes over [y space dquote squote backslash] with 0-2 blanks (space, tab, LF) around; reply text 1-4 bytes over [OoKk.x space]; model 2 bytes; URL suffix 1 byte; key 2 bytes',
                   completion_orders='all (task order is a forked choice at every join)')
     return finish(
         agg, bounds,
         assumptions=['async-openai is a contract stub: builders keep what they are given, chat().create() returns exactly one of {Ok(body), Err}; every transport/status/decoding fault of the property\'s list is Err(OpenAIError) at that API (the HTTP and JSON layers are exercised only by the per-run validation against the real binary with a loopback endpoint)',
                      'tokio: a spawned task runs to completion when the JoinSet is polled; the order of completion is a forked choice (all orders); interleaving inside tasks, worker threads, timing are outside',
-                     'check-ai-pattern forms are not in the quick tasks (regex selection is decided for the same code shape in C07/C18)',
+                     'three regex forms for check-ai-pattern (reference matcher mirsym/rexmodel.py)',
                      'format! text is rendered from the compact fmt template of the MIR (literal pieces + Display of strings)'],
         stubs=['async_openai::{Client, config::OpenAIConfig, Chat, *Args builders}', 'tokio::{JoinSet, Runtime}', 'std::env::var', 'secrecy::ExposeSecret'],
         must_cover=['decided', 'fault', 'two or more AI blocks'],
